@@ -223,7 +223,8 @@ class HedTag:
 
     @extension.setter
     def extension(self, x):
-        self._extension_value = f"/{x}"
+        # No extension is the empty string, not a dangling slash ('Alert/').
+        self._extension_value = f"/{x}" if x else ""
 
     @property
     def long_tag(self):
